@@ -177,6 +177,9 @@ func (c *Ctx) checkLockPairing(rule string, pkgs []string, eng *lockEngine, floo
 					})
 				}
 			}
+			if !escapes && len(c.dynamicCallers(fn)) > 0 {
+				escapes = true // reachable through an interface or function value (VTA call graph)
+			}
 			if escapes || len(c.staticCallSites()[fn]) == 0 {
 				nBad++
 				c.bad(rule, c.fnKey(fn), fn.Pos(), fmt.Sprintf("the function releases %s without having taken it, and it is called through a function value or interface, so no caller can be shown to hold it: unlock of an unlocked mutex (runtime fatal error) or an unprotected critical section", la.requires))
